@@ -26,10 +26,10 @@ HUB = 'glue.core.hub.Hub'
 def run(ctx):
     ix = ctx.index
     hub = ix.cls(HUB)
-    rule_a(ctx, ix, hub)
-    rule_b(ctx, ix, hub)
-    rule_c(ctx, ix, hub)
-    rule_d(ctx, ix, hub)
+    ctx.guard(rule_a, ctx, ix, hub)
+    ctx.guard(rule_b, ctx, ix, hub)
+    ctx.guard(rule_c, ctx, ix, hub)
+    ctx.guard(rule_d, ctx, ix, hub)
 
 
 def _mentions_field(node, selfname, field):
